@@ -291,7 +291,8 @@ fn layouts(rng: &mut Rng) -> Vec<LayoutSpec> {
     push(Kind::Dx9 { caps2: 0x200000 }, 4, 2, Some(5), 3);
     push(Kind::Dx10 { cube: false, dim: 3, array: 1 }, 3, 5, Some(4), 4);
     push(Kind::Dx10 { cube: false, dim: 3, array: 1 }, 2, 2, Some(2), 2);
-    for faces in 0..64u32 {
+    // each partial cube: the 63 non-empty face sets
+    for faces in 1..64u32 {
         let mips = 1 + (faces % 3);
         let (w, h) = *rng.pick(&[(2u32, 2u32), (4, 2), (1, 1), (3, 5), (4, 4)]);
         push(Kind::Dx9 { caps2: 0x200 | (faces << 10) }, w, h, None, mips);
